@@ -228,7 +228,8 @@ class State(object):
 
     def key(self):
         return repr((self.env, sorted(self.tuples.items()), sorted(self.fields.items()), self.slots,
-                     self.events, sorted(self.assume.items()), self.ctl, self.ctx))
+                     self.events, sorted((k, v) for k, v in self.assume.items() if "@" not in str(k)),
+                     self.ctl, self.ctx))
 
     def get(self, name):
         return self.env[-1].get(name)
@@ -648,7 +649,10 @@ class Interp(object):
             def refine(val, st, v2=v2):
                 if not val and isinstance(v2, Aff) and len(v2.t) == 1 and v2.t[0][1] == 1:
                     st.subst[v2.t[0][0]] = -v2.c
-            out.extend(self.decide(txt, txt, roles(v2), s1, refine))
+            key = txt
+            if not roles(v2) and not isinstance(v2, Aff) and not txt.startswith("param "):
+                key = "%s@%d" % (txt, id(e))      # an unknown without provenance: one decision per site
+            out.extend(self.decide(key, txt, roles(v2), s1, refine))
         return out
 
     # ---- calls -------------------------------------------------------------
